@@ -105,6 +105,23 @@ func (g *gen1) extra(c *cont) string {
 	return fmt.Sprintf("V:N%d:%d", c.key, c.member)
 }
 
+// idAllocs: a few Alloc calls, occasionally enough to use up a whole window
+func (g *gen1) idAllocs(i int) {
+	n := []int{1, 1, 2, 3, 1001}[g.r.Intn(5)]
+	if g.r.Bool(9, 10) && n > 3 {
+		n = 2
+	}
+	for k := 0; k < n; k++ {
+		f := "none"
+		if k == 0 {
+			f = pickFault(g.r)
+		}
+		if out := g.do(fmt.Sprintf("idalloc %d %s", i, f)); !strings.HasPrefix(out, "ok") && k > 1 {
+			break
+		}
+	}
+}
+
 func (g *gen1) writeKind() string {
 	switch g.r.Pick(20, 8, 8, 20, 22, 22) {
 	case 0:
@@ -261,6 +278,7 @@ func (g *gen1) closingOp(i int) {
 // allRequests lets contender i try every guarded write and every kind of request once, in random order.
 func (g *gen1) allRequests(i int, withTS bool) {
 	ops := []string{"write %d pp:1:7 none", "write %d pd:2 none", "write %d dd:1 none", "write %d id none",
+		"idalloc %d none", "idalloc %d none",
 		"write %d enc none", "isleader %d", "check %d"}
 	if withTS {
 		ops = append(ops, "write %d ts none")
@@ -481,6 +499,10 @@ func (g *gen1) faithfulOp(used map[[2]int]bool) {
 				g.do(fmt.Sprintf("check %d", i))
 			}
 		case 3:
+			if r.Bool(1, 4) {
+				g.idAllocs(i)
+				return
+			}
 			wk := g.writeKind()
 			if wk == "ts" { // SyncTimestamp is only called inside a term
 				wk = "id"
@@ -515,6 +537,10 @@ func (g *gen1) faithfulOp(used map[[2]int]bool) {
 	case 2:
 		g.do(fmt.Sprintf("enable %d", i))
 	case 3:
+		if r.Bool(1, 4) {
+			g.idAllocs(i)
+			return
+		}
 		g.do(fmt.Sprintf("write %d %s %s", i, g.writeKind(), pickFault(r)))
 	case 4:
 		if ls.Check() && !tsoInit && !r.Bool(1, 6) {
@@ -602,6 +628,10 @@ func (g *gen1) malformedOp() {
 	case 5:
 		g.do(fmt.Sprintf("delkey %d %s %s", i, pickFault(r), pickRv(r)))
 	case 6:
+		if r.Bool(1, 4) {
+			g.idAllocs(i)
+			return
+		}
 		g.do(fmt.Sprintf("write %d %s %s", i, g.writeKind(), pickFault(r)))
 	case 7:
 		if c.m.GetLeadership().Check() && !c.alloc.IsInitialize() && !r.Bool(1, 8) {
